@@ -20,12 +20,17 @@
   * `addObject`                      → `attachIn` / `step` (history model for C16): names in use =
         `c.folder[len(self.folder)+1:]` of the children; default name = first free "Object n" from
         n = len(childobjects)+1; an explicit name loses its leading "/"s; a name in use raises ValueError
-        (nothing attached); the child is appended and `_setFolder(parent.folder + "/" + name)` moves it
+        (nothing attached), and so does a document that is already attached or is the parent itself (d51bb64);
+        the child is appended and `_setFolder(parent.folder + "/" + name)` moves it
         and everything already attached to it (`setFolder`); returned reference "." + folder.
-  * `load`                            → `load`: `manifestlist` (dict), then for every key the chain of listed
-        "Object <digits>/" folders (`walk`, creating sub-documents on first sight: `ensure`), then the
-        dispatch on the name inside the sub-document (`loadEntry`); the `subdocs` dict is the flat list
-        `List Sub`, turned into the tree by `buildDoc`.  `__detectmimetype` → `detectMimetype`.
+  * `load`                            → `load`, written as what the loop computes: `manifestlist` (dict); for every
+        key the chain of listed "Object <digits>/" folders (`chainPairs`, `chainOf` = `objectpath`); the
+        sub-documents in creation order (`allPairs`: a folder is created the first time a key walks
+        through it) and `childobjects` (`kidsOf`); per sub-document the entries dispatched to it
+        (`entriesAt`) give its `Pictures` (`picsAt`), `_extra` (`extrasAt`: everything that is not a
+        picture, the thumbnail, a parsed part, or one of the regenerated entries), the top its thumbnail;
+        `buildDoc` assembles the tree; a `z.read` of a missing member makes `load` raise (`needsRead`).
+        `__detectmimetype` → `detectMimetype`.
 
   Abstractions: `zipfile` = "append entry (name, method, extra, content)"; member names are taken
   verbatim (true for names without NUL; `ZipFile.write` runs normpath over the name of a picture
@@ -33,8 +38,8 @@
   XML parts are opaque tokens `Content.part kind objectId`; the body of a picture registered by file name
   is the token `Content.file name`.  `time` is ignored.  `str.encode('utf-8')` raises on a lone surrogate
   (no package is produced then); `utf8` is total.  The ghost `id` of a loaded sub-document is 1 + the
-  position of its folder entry among the manifest keys.  A document attached twice (or into itself) is
-  outside the model.
+  position of its folder entry among the manifest keys.  Attaching the saved document itself below
+  another one, or a parent into its own sub-tree, is outside the model.
 -/
 import OdfModel.Basic
 namespace OdfModel.Pkg
@@ -379,9 +384,22 @@ inductive StepRes where
   | valueError          -- the call raised ValueError; nothing changed
   | unsupported         -- outside the model (child unknown / already attached / is the root, parent unknown or inside the child)
 
+mutual
+def hasId (p : Nat) : Doc → Bool
+  | ⟨id, _, _, _, _, _, _, kids⟩ => id == p || hasIdK p kids
+def hasIdK (p : Nat) : List Doc → Bool
+  | [] => false
+  | d :: ds => hasId p d || hasIdK p ds
+end
+
+/-- `document.folder != u""`: the document hangs below some other document (of the root's tree or of a pool tree) -/
+def attachedSomewhere (h : Hist) (c : Nat) : Bool :=
+  hasIdK c h.root.children || h.pool.any (fun d => hasIdK c d.children)
+
 /-- one `addObject` call -/
 def step (h : Hist) (op : Op) : StepRes :=
-  match h.pool.find? (fun d => d.id == op.child) with
+  if op.child == op.parent || attachedSomewhere h op.child then .valueError   -- (d51bb64) `document is self` / already attached
+  else match h.pool.find? (fun d => d.id == op.child) with
   | none => .unsupported
   | some c =>
     let pool := h.pool.filter (fun d => d.id != op.child)
@@ -400,14 +418,6 @@ def run (h : Hist) : List Op → Option Hist
     | .ok h' => run h' ops
     | .valueError => run h ops
     | .unsupported => none
-
-mutual
-def hasId (p : Nat) : Doc → Bool
-  | ⟨id, _, _, _, _, _, _, kids⟩ => id == p || hasIdK p kids
-def hasIdK (p : Nat) : List Doc → Bool
-  | [] => false
-  | d :: ds => hasId p d || hasIdK p ds
-end
 
 /-- **the decidable hypothesis of `ref_names_folder_partial`**: every parent hangs under the saved document at
     the time it gets a child (references are handed out top-down) -/
@@ -473,88 +483,98 @@ def objComp (s : Str) : Option Str :=
     if !ds.isEmpty && (s.drop (7 + ds.length)).head? == some 47 then some (sObjectSp ++ ds ++ sSlash) else none
   else none
 
-/-- one value of the `subdocs` dict: a (sub-)document under construction, keyed by its folder in the package -/
-structure Sub where
-  path : Str                -- "" for the top document, "Object 1/Object 2/" …
-  id : Nat
-  mimetype : Str
-  pics : List Pic
-  thumb : Option Thumb
-  extras : List Extra
-  kids : List Str           -- the paths of its sub-documents, in attach order
-deriving Repr
-
 def settingsOf (p : Package) (keys : List Str) (F : Str) : Bool :=
   keys.contains (F ++ sSettings) && p.settingsNonEmpty.contains (F ++ sSettings)
   && (zread p.members (F ++ sSettings)).isSome
 
-def updSub (path : Str) (f : Sub → Sub) (subs : List Sub) : List Sub :=
-  subs.map (fun s => if s.path == path then f s else s)
-
-/-- `if objectpath + m.group(0) not in subdocs:` create the sub-document and attach it to its parent -/
-def ensure (man : List (Str × Str)) (subs : List Sub) (parent comp : Str) : List Sub :=
-  let path := parent ++ comp
-  if subs.any (fun s => s.path == path) then subs
-  else updSub parent (fun s => { s with kids := s.kids ++ [path] }) subs
-        ++ [⟨path, (man.map (·.1)).idxOf path + 1, ((man.find? (fun e => e.1 == path)).map (·.2)).getD [], [], none, [], []⟩]
-
-/-- the `while True:` loop: follows the chain of listed object folders at the head of `rest`; returns the
-    `subdocs` and `objectpath` -/
-def walk (man : List (Str × Str)) : Nat → List Sub → Str → Str → List Sub × Str
-  | 0, subs, op, _ => (subs, op)
-  | f+1, subs, op, rest => match objComp rest with
+/-- the `while True:` loop of `load` on the key `op ++ rest`, started at `objectpath = op`: the pairs
+    (parent folder, folder) of the listed object folders it walks through -/
+def chainPairs (keys : List Str) : Nat → Str → Str → List (Str × Str)
+  | 0, _, _ => []
+  | f+1, op, rest => match objComp rest with
     | some c =>
-      if (man.map (·.1)).contains (op ++ c) then walk man f (ensure man subs op c) (op ++ c) (rest.drop c.length)
-      else (subs, op)
-    | none => (subs, op)
+      if keys.contains (op ++ c) then (op, op ++ c) :: chainPairs keys f (op ++ c) (rest.drop c.length) else []
+    | none => []
 
-/-- the dispatch on one manifest entry, after the walk; `none` = the KeyError that `load` lets escape -/
-def loadEntry (p : Package) (subs : List Sub) (op : Str) (e : Str × Str) : Option (List Sub) :=
-  let name := e.1.drop op.length
-  if isPicturePath name then
-    match zread p.members e.1 with
-    | some b => some (updSub op (fun s => { s with pics := register s.pics ⟨name, .image b, e.2⟩ }) subs)
-    | none => none
-  else if e.1 == sThumb then
-    match zread p.members e.1 with
-    | some b => some (updSub [] (fun s => { s with thumb := some ⟨b, e.2⟩ }) subs)
-    | none => none
-  else if isParsedPart name || e.1 == sMeta then some subs
-  else if isRegenerated e.1 then some subs
-  else match name.getLast? with
-    | none => some subs          -- unreachable: the empty name is a parsed part
-    | some c =>
-      if c == 47 then some (updSub op (fun s => { s with extras := s.extras ++ [⟨name, e.2, none⟩] }) subs)
-      else match zread p.members e.1 with
-        | some b => some (updSub op (fun s => { s with extras := s.extras ++ [⟨name, e.2, some b⟩] }) subs)
-        | none => none
+/-- all pairs a key walks through -/
+def keyPairs (keys : List Str) (k : Str) : List (Str × Str) := chainPairs keys k.length [] k
 
-/-- `for mentry, mvalue in manifest.items():` -/
-def loadLoop (p : Package) (man : List (Str × Str)) : List Sub → List (Str × Str) → Option (List Sub)
-  | subs, [] => some subs
-  | subs, e :: es =>
-    let w := walk man e.1.length subs [] e.1
-    match loadEntry p w.1 w.2 e with
-    | some subs' => loadLoop p man subs' es
-    | none => none
+/-- `objectpath` after the `while True:` loop on the key `op ++ rest`, started at `objectpath = op` -/
+def chainEnd (keys : List Str) : Nat → Str → Str → Str
+  | 0, op, _ => op
+  | f+1, op, rest => match objComp rest with
+    | some c => if keys.contains (op ++ c) then chainEnd keys f (op ++ c) (rest.drop c.length) else op
+    | none => op
+
+/-- the folder of the sub-document a key belongs to ("" = the top document) -/
+def chainOf (keys : List Str) (k : Str) : Str := chainEnd keys k.length [] k
+
+/-- `if objectpath + m.group(0) not in subdocs:` — a folder is created the first time it is walked through
+    (a folder has one parent, so telling pairs apart is telling folders apart) -/
+def addPair (acc : List (Str × Str)) (x : Str × Str) : List (Str × Str) :=
+  if acc.contains x then acc else acc ++ [x]
+
+/-- the `subdocs` dict without the top document: (parent folder, folder) of every sub-document, in creation order -/
+def allPairs (keys : List Str) : List (Str × Str) := (keys.flatMap (keyPairs keys)).foldl addPair []
+
+/-- `childobjects` of the document stored in `P`, as folders, in attach order -/
+def kidsOf (keys : List Str) (P : Str) : List Str := ((allPairs keys).filter (fun x => x.1 == P)).map (·.2)
+
+/-- the manifest entries that `load` dispatches to the document stored in `P` -/
+def entriesAt (man : List (Str × Str)) (keys : List Str) (P : Str) : List (Str × Str) :=
+  man.filter (fun e => chainOf keys e.1 == P)
+
+/-- the last branch of the dispatch: the entry is kept as an opaque extra of its sub-document -/
+def isKept (P : Str) (e : Str × Str) : Bool :=
+  let name := e.1.drop P.length
+  !isPicturePath name && !(e.1 == sThumb) && !(isParsedPart name || e.1 == sMeta) && !isRegenerated e.1
+
+/-- the `OpaqueObject` for a kept entry (directory names carry no content) -/
+def toExtra (p : Package) (P : Str) (e : Str × Str) : Extra :=
+  let name := e.1.drop P.length
+  ⟨name, e.2, if name.getLast? == some 47 then none else zread p.members e.1⟩
+
+/-- does the dispatch of this entry call `z.read(mentry)`? -/
+def needsRead (keys : List Str) (e : Str × Str) : Bool :=
+  let P := chainOf keys e.1
+  let name := e.1.drop P.length
+  isPicturePath name || (!isPicturePath name && e.1 == sThumb) || (isKept P e && name.getLast? != some 47)
+
+/-- `Pictures` of the document stored in `P` -/
+def picsAt (p : Package) (man : List (Str × Str)) (keys : List Str) (P : Str) : List Pic :=
+  (((entriesAt man keys P).filter (fun e => isPicturePath (e.1.drop P.length))).map
+    (fun e => (⟨e.1.drop P.length, .image ((zread p.members e.1).getD []), e.2⟩ : Pic))).foldl register []
+
+/-- `_extra` of the document stored in `P` -/
+def extrasAt (p : Package) (man : List (Str × Str)) (keys : List Str) (P : Str) : List Extra :=
+  ((entriesAt man keys P).filter (isKept P)).map (toExtra p P)
+
+/-- thumbnail + `_thumbnail_mediatype` (top document only) -/
+def thumbOf (p : Package) (man : List (Str × Str)) : Option Thumb :=
+  (man.find? (fun e => e.1 == sThumb)).map (fun e => ⟨(zread p.members e.1).getD [], e.2⟩)
 
 /-- the `folder` attribute `addObject(subdoc, "/" + name)` leaves on the sub-document stored in `path` -/
 def folderOfPath (path : Str) : Str := if path.isEmpty then [] else 47 :: path.dropLast
 
-/-- the tree of documents described by the `subdocs` dict (`none`: not reachable, kept total by fuel) -/
-def buildDoc (p : Package) (keys : List Str) (subs : List Sub) : Nat → Str → Option Doc
-  | 0, _ => none
-  | f+1, path => match subs.find? (fun s => s.path == path) with
-    | none => none
-    | some s => match s.kids.mapM (buildDoc p keys subs f) with
-      | some ks => some ⟨s.id, s.mimetype, settingsOf p keys path, s.pics, s.thumb, s.extras, folderOfPath path, ks⟩
-      | none => none
+/-- the document stored in `P` with everything below it (the fuel bounds the nesting depth) -/
+def buildDoc (p : Package) (man : List (Str × Str)) (keys : List Str) : Nat → Str → Doc
+  | 0, P => ⟨keys.idxOf P + 1, ((man.find? (fun e => e.1 == P)).map (·.2)).getD [], settingsOf p keys P,
+             picsAt p man keys P, none, extrasAt p man keys P, folderOfPath P, []⟩
+  | f+1, P => ⟨keys.idxOf P + 1, ((man.find? (fun e => e.1 == P)).map (·.2)).getD [], settingsOf p keys P,
+             picsAt p man keys P, none, extrasAt p man keys P, folderOfPath P,
+             (kidsOf keys P).map (buildDoc p man keys f)⟩
 
-/-- `load`: the top document gets id 0 -/
+/-- enough fuel for any nesting that the keys can describe -/
+def loadFuel (keys : List Str) : Nat := (keys.map (·.length)).sum + 1
+
+/-- `load`.  The top document gets id 0 and the media type of `__detectmimetype`; `none` = some `z.read`
+    raised KeyError -/
 def load (p : Package) : Option Doc :=
   let man := manifestlist p.manifest
-  match loadLoop p man [⟨[], 0, detectMimetype p, [], none, [], []⟩] man with
-  | some subs => buildDoc p (man.map (·.1)) subs (subs.length + 1) []
-  | none => none
+  let keys := man.map (·.1)
+  if man.all (fun e => !needsRead keys e || (zread p.members e.1).isSome) then
+    match buildDoc p man keys (loadFuel keys) [] with
+    | ⟨_, _, hs, pics, _, ex, fo, kids⟩ => some ⟨0, detectMimetype p, hs, pics, thumbOf p man, ex, fo, kids⟩
+  else none
 
 end OdfModel.Pkg
